@@ -23,6 +23,16 @@ import (
 
 var verdictOut = os.Stdout
 
+// evidenceDir: the self-tests against seeded changes write their evidence elsewhere (VERIF_EVIDENCE_DIR)
+// so that /verif/evidence only ever describes runs against /repo itself.
+func evidenceDir(verif string) string {
+	if d := os.Getenv("VERIF_EVIDENCE_DIR"); d != "" {
+		_ = os.MkdirAll(d, 0755)
+		return d
+	}
+	return filepath.Join(verif, "evidence")
+}
+
 func main() {
 	check := flag.String("check", "", "property id")
 	tier := flag.String("tier", "quick", "quick|thorough")
@@ -36,6 +46,9 @@ func main() {
 	racePass := flag.Bool("racepass", false, "race-oracle pass of the thorough tier: quick-tier enumeration under the race detector, merged into the existing evidence file")
 	flag.Parse()
 
+	// every mutex release is a scheduling point too (reaches code that keeps using shared data after
+	// it let go of the lock); VERIF_UNLOCKPOINTS=0 restores acquisition-only switching
+	vrt.UnlockPoints = os.Getenv("VERIF_UNLOCKPOINTS") != "0"
 	p := props.Lookup(*check)
 	if p == nil {
 		fmt.Fprintf(os.Stderr, "vcheck: unknown check %q\n", *check)
@@ -293,7 +306,7 @@ func finish(p *props.Prop, res explore.Result, check, tier string, seed int64, v
 		"violations":  unlisted,
 	}
 	b, _ := json.MarshalIndent(ev, "", " ")
-	evPath := filepath.Join(verif, "evidence", check+".json")
+	evPath := filepath.Join(evidenceDir(verif), check+".json")
 	_ = os.MkdirAll(filepath.Dir(evPath), 0755)
 	if err := os.WriteFile(evPath, append(b, '\n'), 0644); err != nil {
 		fmt.Fprintln(os.Stderr, "vcheck: write evidence:", err)
@@ -314,7 +327,7 @@ func finish(p *props.Prop, res explore.Result, check, tier string, seed int64, v
 // finishRacePass merges the result of the race-oracle pass into the evidence file the functional
 // pass has just written and reports race violations only (functional ones were reported already).
 func finishRacePass(res explore.Result, check, verif string, wall float64) int {
-	evPath := filepath.Join(verif, "evidence", check+".json")
+	evPath := filepath.Join(evidenceDir(verif), check+".json")
 	var ev map[string]interface{}
 	if b, err := os.ReadFile(evPath); err == nil {
 		_ = json.Unmarshal(b, &ev)
